@@ -15,6 +15,9 @@ package main
 //	  s:ORDER        Start() (first) / config revision bump (later): the table is reset and the
 //	                 listed copies answer in ORDER (their replies are delayed k*35 ms by the node)
 //	  m:ABS:ORDER    the vBucket-map row changes, then as s
+//	  e:E:R:ABS:ORDER the cluster publishes its config under the revision (revEpoch E, rev R) with the row ABS (every cluster
+//	                 starts at (2,100); s / m publish rev+1): a revision that is newer - higher epoch whatever the rev, or same
+//	                 epoch and larger rev - is adopted as m; any other is ignored: no restart, no dispatch, the old layout stays
 //	  r:I:U:S        copy I now answers (U,S)
 //	  t:I:U:S:K / b:I:U:S:K   the same after K TMPFAIL / BUSY answers
 //	  o:I:U:S        the same after one unanswered request (5 s deadline inside observeVbID)
@@ -64,7 +67,9 @@ import (
 func init() { props["c07rm"] = runC07Rm }
 
 type rmStep struct {
-	kind  byte // s m r t b o i x
+	kind  byte // s m e r t b o i x
+	ep    int  // e: revEpoch and rev of the published config
+	rev   int
 	idx   int
 	u, q  uint64
 	k     int
@@ -111,6 +116,8 @@ func (s rmStep) String() string {
 		return "s:" + rmDots(s.order)
 	case 'm':
 		return "m:" + rmDots(s.abs) + ":" + rmDots(s.order)
+	case 'e':
+		return fmt.Sprintf("e:%d:%d:%s:%s", s.ep, s.rev, rmDots(s.abs), rmDots(s.order))
 	case 'r', 'o':
 		return fmt.Sprintf("%c:%d:%d:%d", s.kind, s.idx, s.u, s.q)
 	case 't', 'b':
@@ -183,6 +190,14 @@ func rmParse(op string) (*rmScript, bool) {
 			st.abs, ok = rmParseDots(p[1])
 			st.order, ok2 = rmParseDots(p[2])
 			ok = ok && ok2
+		case st.kind == 'e' && len(p) == 5:
+			var ok2 bool
+			st.ep, st.rev = int(num(1)), int(num(2))
+			ok = ok && st.ep >= 1 && st.rev >= 1
+			st.abs, ok2 = rmParseDots(p[3])
+			ok = ok && ok2
+			st.order, ok2 = rmParseDots(p[4])
+			ok = ok && ok2
 		case (st.kind == 'r' || st.kind == 'o') && len(p) == 4:
 			st.idx, st.u, st.q = int(num(1)), num(2), num(3)
 		case (st.kind == 't' || st.kind == 'b') && len(p) == 5:
@@ -245,14 +260,42 @@ func rmExecutable(scs []*rmScript, kv int) bool {
 			return len(order) == listed // every listed copy answers
 		}
 		started := false
+		pub, use := rmRev0, rmRev0
 		for _, st := range sc.steps {
+			// which revision the step publishes and whether configWatch has to adopt it (lexicographic on (revEpoch, rev))
+			adopt := true
+			if started && (st.kind == 's' || st.kind == 'm' || st.kind == 'e') {
+				if st.kind == 'e' {
+					pub = [2]int{st.ep, st.rev}
+				} else {
+					pub[1]++
+				}
+				if adopt = rmNewer(use, pub); adopt {
+					use = pub
+				}
+			}
 			switch st.kind {
 			case 's':
 				if !check(abs, st.order) {
 					return false
 				}
 				started = true
+			case 'e':
+				if !started {
+					return false
+				}
+				if !adopt {
+					// a config the real code ignores must leave the row alone: the harness talks to the copies of the layout in use
+					if rmDots(st.abs) != rmDots(abs) {
+						return false
+					}
+					break
+				}
+				fallthrough
 			case 'm':
+				if !adopt && rmDots(st.abs) != rmDots(abs) {
+					return false
+				}
 				// newly listed copies need KV nodes that the previous row did not use (see rmRow)
 				fresh := 0
 				for i := 0; i < sc.n; i++ {
@@ -283,11 +326,19 @@ func rmExecutable(scs []*rmScript, kv int) bool {
 		k0 := byte(0)
 		for _, sc := range scs {
 			k := sc.steps[i].kind
-			if k == 's' || k == 'm' || k == 'x' {
+			if k == 's' || k == 'm' || k == 'x' || k == 'e' {
 				wide++
 				if k == 'm' {
 					ms++
 					k = 's'
+				}
+				if k == 'e' {
+					if rmDots(sc.steps[i].abs) != rmDots(rmAbsAt(sc, i)) {
+						ms++
+					}
+					if e0 := scs[0].steps[i]; e0.kind != 'e' || e0.ep != sc.steps[i].ep || e0.rev != sc.steps[i].rev {
+						return false
+					}
 				}
 				if k0 == 0 {
 					k0 = k
@@ -304,6 +355,25 @@ func rmExecutable(scs []*rmScript, kv int) bool {
 		}
 	}
 	return true
+}
+
+// every simulated cluster starts at revision (revEpoch 2, rev 100): there is an older epoch and there are smaller revs
+var rmRev0 = [2]int{2, 100}
+
+// rmNewer: the order a cluster config revision has (gocbcore routeConfig.IsNewerThan; what go-dcp must follow)
+func rmNewer(old, new [2]int) bool {
+	return new[0] > old[0] || (new[0] == old[0] && new[1] > old[1])
+}
+
+// rmAbsAt: the unlisted indices of the row before step i
+func rmAbsAt(sc *rmScript, i int) []int {
+	abs := sc.abs
+	for _, st := range sc.steps[:i] {
+		if st.kind == 'm' || st.kind == 'e' {
+			abs = st.abs
+		}
+	}
+	return abs
 }
 
 // ---- one instance = sim cluster + real client + real rollback mitigation
@@ -325,13 +395,14 @@ type rmInst struct {
 	scs      []*rmScript
 	rows     [][]int // per vb: node of every index, -1 = unlisted
 
-	mu      sync.Mutex
-	pairs   map[[2]int]*rmPair // (node, vb)
-	stagger bool
-	rounds  map[int]time.Time // per vb: arrival of the first request of the current staggered round
-	disp    map[uint16][]uint64
-	started bool
-	stopped bool
+	mu       sync.Mutex
+	pairs    map[[2]int]*rmPair // (node, vb)
+	stagger  bool
+	rounds   map[int]time.Time // per vb: arrival of the first request of the current staggered round
+	disp     map[uint16][]uint64
+	started  bool
+	stopped  bool
+	pub, use [2]int        // revision the cluster published last / the newest one published so far (= what the code has to work with)
 	stopTook time.Duration // observed duration of Stop()
 }
 
@@ -431,6 +502,8 @@ func newRmInst(scs []*rmScript, kv int, interval time.Duration, pick func(int) i
 			}
 		}
 	}
+	in.node.SetRevision(rmRev0[0], rmRev0[1])
+	in.pub, in.use = rmRev0, rmRev0
 	if err := in.node.Start(); err != nil {
 		panic(err)
 	}
@@ -553,7 +626,7 @@ func (in *rmInst) run(pick func(int) int) []string {
 	for si := 0; si < nsteps; si++ {
 		kind := byte('l')
 		for _, sc := range in.scs {
-			if k := sc.steps[si].kind; k == 's' || k == 'm' {
+			if k := sc.steps[si].kind; k == 's' || k == 'm' || k == 'e' {
 				kind = 's'
 			} else if k == 'x' {
 				kind = 'x'
@@ -562,14 +635,30 @@ func (in *rmInst) run(pick func(int) int) []string {
 		switch kind {
 		case 's':
 			// new rows first (SetPersist for copies that become listed), stagger delays, then start / bump
+			// the revision this step publishes, and whether the code has to adopt it
+			cfgStep := in.scs[0].steps[si].kind == 'e'
+			adopt := true
+			if in.started {
+				if cfgStep {
+					in.pub = [2]int{in.scs[0].steps[si].ep, in.scs[0].steps[si].rev}
+				} else {
+					in.pub[1]++
+				}
+				if adopt = rmNewer(in.use, in.pub); adopt {
+					in.use = in.pub
+				}
+			}
 			in.mu.Lock()
-			in.stagger = true
+			in.stagger = adopt
 			in.mu.Unlock()
 			remapVb, remapRow := -1, []int(nil)
 			for vb, sc := range in.scs {
 				st := sc.steps[si]
 				row := in.rows[vb]
-				if st.kind == 'm' {
+				if !adopt {
+					continue // the row does not change (rmExecutable) and nothing restarts
+				}
+				if st.kind == 'm' || (st.kind == 'e' && rmDots(st.abs) != rmDots(sc.abs)) {
 					row = rmRow(sc.n, st.abs, in.kv, in.rows[vb], pick)
 					remapVb, remapRow = vb, row
 					in.rows[vb] = row
@@ -611,18 +700,31 @@ func (in *rmInst) run(pick func(int) int) []string {
 					return rmJoin(out)
 				}
 			} else if !in.stopped {
-				if remapVb >= 0 {
+				switch {
+				case cfgStep && remapVb >= 0:
+					in.node.SetReplicaMapRevision(uint16(remapVb), remapRow, in.pub[0], in.pub[1])
+				case cfgStep:
+					in.node.SetRevision(in.pub[0], in.pub[1])
+				case remapVb >= 0:
 					in.node.SetReplicaMap(uint16(remapVb), remapRow)
-				} else {
+				default:
 					in.node.BumpConfig()
 				}
 			}
-			if !in.stopped {
+			if !in.stopped && adopt {
 				// the new generation has started once it has fetched the failover logs of all its vBuckets
-				deadline := time.Now().Add(10 * time.Second)
+				limit := 10 * time.Second
+				if cfgStep {
+					limit = 3 * time.Second // a config that is (wrongly) ignored never restarts anything
+				}
+				deadline := time.Now().Add(limit)
 				for in.node.Count(memd.CmdDcpGetFailoverLog) < flBefore+len(in.scs) && time.Now().Before(deadline) {
 					time.Sleep(time.Millisecond)
 				}
+				in.waitRounds(in.marks(), 3, 20*time.Second)
+			} else if !in.stopped {
+				// not newer than the config in use: gocbcore / configWatch must ignore it; eight watch intervals, then two poll rounds
+				time.Sleep(160 * time.Millisecond)
 				in.waitRounds(in.marks(), 3, 20*time.Second)
 			}
 			in.mu.Lock()
@@ -779,7 +881,69 @@ func rmAbsRemap(r *Rng, n, kv int, old []int) []int {
 	return abs
 }
 
-// rmPlan: kinds of the steps of an instance ('l' = local step chosen per script)
+// rmCfg: revision of every 'e' step of a plan, whether the code has to adopt it, and a tag
+type rmCfg struct {
+	ep, rev int
+	adopt   bool
+	tag     string
+}
+
+// rmPlanRevs walks a plan and chooses the revision of every 'e' step: a new revision epoch with a smaller / equal / larger
+// rev (quorum-loss fail-over restarts the rev counter), the next rev(s) of the epoch in use, and revisions that are NOT
+// newer (older epoch with a larger rev, the same revision again, a smaller rev of the same epoch)
+func rmPlanRevs(r *Rng, plan []byte) []rmCfg {
+	out := make([]rmCfg, len(plan))
+	pub, use := rmRev0, rmRev0
+	started := false
+	for i, k := range plan {
+		switch k {
+		case 's', 'm':
+			if started {
+				pub[1]++
+				if rmNewer(use, pub) {
+					use = pub
+				}
+			}
+			started = true
+		case 'e', 'E':
+			var c rmCfg
+			if k == 'e' {
+				switch r.Intn(5) {
+				case 0, 1:
+					c = rmCfg{use[0] + 1, 1 + r.Intn(use[1]-1), true, "cfg-epoch.new-epoch-smaller-rev"}
+				case 2:
+					c = rmCfg{use[0] + 1, use[1], true, "cfg-epoch.new-epoch-equal-rev"}
+				case 3:
+					c = rmCfg{use[0] + r.Range(1, 2), use[1] + r.Range(1, 50), true, "cfg-epoch.new-epoch-larger-rev"}
+				default:
+					c = rmCfg{use[0], use[1] + r.Range(1, 3), true, "cfg-epoch.same-epoch-next-rev"}
+				}
+			} else {
+				switch r.Intn(3) {
+				case 0:
+					c = rmCfg{use[0] - 1, use[1] + r.Range(1, 500), false, "cfg-epoch.older-epoch-larger-rev"}
+				case 1:
+					c = rmCfg{use[0], use[1], false, "cfg-epoch.same-revision"}
+				default:
+					c = rmCfg{use[0], 1 + r.Intn(use[1]-1), false, "cfg-epoch.same-epoch-smaller-rev"}
+				}
+			}
+			pub = [2]int{c.ep, c.rev}
+			if rmNewer(use, pub) != c.adopt {
+				panic("rmPlanRevs: wrong expectation")
+			}
+			if c.adopt {
+				use = pub
+			}
+			out[i] = c
+			plan[i] = 'e'
+		}
+	}
+	return out
+}
+
+// rmPlan: kinds of the steps of an instance ('l' = local step chosen per script; 'e' / 'E' = a config revision that has to
+// be adopted / ignored, see rmPlanRevs)
 func rmPlan(r *Rng, withTimeout bool) []byte {
 	var p []byte
 	if r.Chance(30) {
@@ -792,10 +956,20 @@ func rmPlan(r *Rng, withTimeout bool) []byte {
 		p = append(p, 'l')
 	}
 	if r.Chance(60) {
-		if r.Chance(65) {
+		switch c := r.Intn(100); {
+		case c < 35:
 			p = append(p, 'm')
-		} else {
+		case c < 50:
 			p = append(p, 's')
+		case c < 85:
+			p = append(p, 'e')
+		default:
+			// a revision that is not newer is ignored (old layout, no restart); the next newer one is adopted
+			p = append(p, 'E')
+			for i := r.Range(1, 2); i > 0; i-- {
+				p = append(p, 'l')
+			}
+			p = append(p, 'e')
 		}
 		for i := r.Range(2, 5); i > 0; i-- {
 			p = append(p, 'l')
@@ -812,7 +986,7 @@ func rmPlan(r *Rng, withTimeout bool) []byte {
 	return p
 }
 
-func rmGenScript(r *Rng, n, kv int, plan []byte, hasM bool, timeoutHere bool) (*rmScript, []string) {
+func rmGenScript(r *Rng, n, kv int, plan []byte, revs []rmCfg, hasM bool, timeoutHere bool) (*rmScript, []string) {
 	sc := &rmScript{n: n, abs: rmAbs(r, n, kv)}
 	tags := map[string]bool{}
 	style := r.Intn(10) // 0: all zero at start, 1-2: agreeing, else mixed
@@ -833,7 +1007,7 @@ func rmGenScript(r *Rng, n, kv int, plan []byte, hasM bool, timeoutHere bool) (*
 	abs := sc.abs
 	cur := append([][2]uint64(nil), sc.v...)
 	started, stopped := false, false
-	for _, k := range plan {
+	for pi, k := range plan {
 		switch k {
 		case 's':
 			sc.steps = append(sc.steps, rmStep{kind: 's', order: rmPerm(r, rmListed(n, abs))})
@@ -841,6 +1015,15 @@ func rmGenScript(r *Rng, n, kv int, plan []byte, hasM bool, timeoutHere bool) (*
 				tags["config-bump"] = true
 			}
 			started = true
+		case 'e':
+			c := revs[pi]
+			if c.adopt && hasM {
+				// the new revision re-creates / drops / moves copies of this vBucket
+				abs = rmAbsRemap(r, n, kv, abs)
+				tags["cfg-epoch.map-change"] = true
+			}
+			sc.steps = append(sc.steps, rmStep{kind: 'e', ep: c.ep, rev: c.rev, abs: abs, order: rmPerm(r, rmListed(n, abs))})
+			tags[c.tag] = true
 		case 'm':
 			if hasM {
 				abs = rmAbsRemap(r, n, kv, abs)
@@ -1215,6 +1398,26 @@ func runC07Rm(c *Ctx) {
 		}
 		jobs = append(jobs, j)
 	}
+	// directed instance 2 (constant across seeds): the cluster starts at revision (2,100); a quorum-loss fail-over starts epoch 3
+	// and restarts the rev counter; the new map lists a replica that was unlisted (it lags), drops one, keeps one
+	directedCfg := []string{
+		"rm-script 2 1 5:100,5:0 s:0 r:0:5:100 e:3:12:-:0.1 r:0:5:150 r:1:5:120 r:1:5:160 e:3:12:-:1.0 e:2:900:-:0.1 r:0:5:170 e:3:13:-:0.1 x",
+		"rm-script 2 - 5:7,5:9 s:1.0 r:0:5:8 e:3:12:-:0.1 r:0:5:30 r:1:5:1 r:0:5:31 e:3:12:-:0.1 e:2:900:-:1.0 r:0:5:32 e:3:13:1:0 x",
+		"rm-script 2 - 5:4,5:6 s:0.1 r:1:5:5 e:3:12:-:1.0 r:0:5:6 r:1:5:7 r:0:5:9 e:3:12:-:0.1 e:2:900:-:0.1 r:1:5:8 e:3:13:-:0.1 x",
+	}
+	{
+		j := &rmJob{kv: 2, interval: 20 * time.Millisecond, seed: 78}
+		for _, op := range directedCfg {
+			sc, ok := rmParse(op)
+			if !ok {
+				panic("bad directed op " + op)
+			}
+			j.scs = append(j.scs, sc)
+			j.ops = append(j.ops, op)
+			j.tags = append(j.tags, []string{"directed", "cfg-epoch.directed"})
+		}
+		jobs = append(jobs, j)
+	}
 	ninst := c.N(120, 1500)
 	ntimeout := c.N(3, 20)
 	for i := 0; i < ninst; i++ {
@@ -1226,11 +1429,12 @@ func runC07Rm(c *Ctx) {
 		nvb := rng.Range(4, 8)
 		withTimeout := i < ntimeout
 		plan := rmPlan(rng, withTimeout)
+		revs := rmPlanRevs(rng, plan)
 		j := &rmJob{kv: kv, interval: time.Duration(rng.Range(15, 25)) * time.Millisecond, seed: rng.U64()}
 		mAt := rng.Intn(nvb)
 		tAt := rng.Intn(nvb)
 		for vb := 0; vb < nvb; vb++ {
-			sc, tags := rmGenScript(rng, n, kv, plan, vb == mAt, vb == tAt)
+			sc, tags := rmGenScript(rng, n, kv, plan, revs, vb == mAt, vb == tAt)
 			j.scs = append(j.scs, sc)
 			j.ops = append(j.ops, sc.op())
 			j.tags = append(j.tags, tags)
